@@ -106,6 +106,8 @@ def anchor_universe() -> dict:
     types.append(td("OuterP", [fld("f0", prim("uint", 5)), fld("ins", {"t": "varr", "elem": ref("Inner"), "cap": 3, "incl": True}), fld("one", ref("Inner")), fld("us", {"t": "varr", "elem": ref("UniP"), "cap": 3, "incl": True}),
                                 fld("u", ref("UniP")), fld("bits", {"t": "varr", "elem": {"t": "bool"}, "cap": 11, "incl": True}), fld("w", {"t": "varr", "elem": prim("int", 33), "cap": 2, "incl": True})], sealed=False, extent_bits=8192))
     consts = [
+        # the same rational declared with a narrow type BEFORE a wide one and the other way round (1/3 below: float64 then float16)
+        ("float", 32, "F32TENTH", "0.1"), ("float", 16, "F16TENTH", "0.1"), ("float", 64, "F64TENTH", "0.1"), ("float", 64, "F64SEVENTH", "1/7"), ("float", 32, "F32SEVENTH", "1/7"),
         ("float", 64, "T64A", "1e-320"), ("float", 64, "T64B", "5e-324"), ("float", 64, "T64C", "2.2250738585072014e-308"), ("float", 64, "T64D", "1.7976931348623157e308"),
         ("float", 64, "T64E", "1/3"), ("float", 32, "T32A", "1e-45"), ("float", 32, "T32B", "340282346638528859811704183484516925440.0"), ("float", 32, "T32C", "16777217.0"),
         ("float", 16, "T16A", "6.0e-8"), ("float", 16, "T16B", "65504.0"), ("float", 16, "T16C", "1/3"),
@@ -140,6 +142,7 @@ def anchor_universe() -> dict:
     # nothing but padding: the serializer has no field to write, yet its size bound and its buffer check are the same as ever
     types.append(td("PadOnly", [{"k": "void", "bits": 16}, {"k": "void", "bits": 3}]))
     types.append(td("PadOnlyD", [{"k": "void", "bits": 7}, {"k": "void", "bits": 64}], sealed=False, extent_bits=128))
+    types.append(td("TailPad", [fld("x", prim("uint", 8)), fld("p", ref("PadOnly")), fld("y", prim("uint", 8)), fld("ps", {"t": "farr", "elem": ref("PadOnly"), "n": 2}), fld("d", ref("PadOnlyD")), fld("z", prim("uint", 8))]))
     types.append(td("Nil", []))
     types.append(td("NilD", [], sealed=False, extent_bits=0))
     types.append(td("TailNil", [fld("x", prim("uint", 8)), fld("e", ref("Nil"))]))
